@@ -17,6 +17,7 @@ import (
 	"encoding/binary"
 	"encoding/hex"
 	"fmt"
+	"google.golang.org/protobuf/encoding/protowire"
 	"net/url"
 	"strconv"
 	"strings"
@@ -109,6 +110,10 @@ type reqCase struct {
 	ProbeN int           `json:"probe_n"` // rows of the probe
 	// Fill, when set, makes the wire body wrap(Body + Unit x N + Tail) (client.go).
 	Fill *fillSpec `json:"fill,omitempty"`
+	// Phrase, when not empty, is a phrase the error mapping looks for (or a generic error
+	// text) that the request carries in its data; the oracle sends a twin with the phrase
+	// minimally altered and compares the answers.
+	Phrase string `json:"phrase,omitempty"`
 	// Client, when set, sends the request a first time through a client that aborts.
 	Client *clientSpec `json:"client,omitempty"`
 }
@@ -669,7 +674,7 @@ func encodeFor(rt *rapid.T, ce string, b []byte) (out []byte, enc string) {
 	case 6:
 		return gz(gz(b)), "gzip-twice"
 	case 7: // a small stream that inflates to megabytes of zeros
-		return gz(make([]byte, rapid.SampledFrom([]int{1 << 20, 8 << 20}).Draw(rt, "bomb"))), "gzip-bomb"
+		return gz(make([]byte, rapid.SampledFrom([]int{1 << 20, 3 << 20, 8 << 20}).Draw(rt, "bomb"))), "gzip-bomb"
 	default:
 		s := snappyFramed(b)
 		return s[:rapid.IntRange(0, len(s)).Draw(rt, "snappy-cut")], "snappy-truncated"
@@ -734,6 +739,18 @@ func genReq(thorough bool) func(rt *rapid.T) reqCase {
 			}
 		}
 		rd := routes[routeDeck[uni(rt, "route", len(routeDeck))]]
+		// one case in ten carries an error phrase in its data; half of those go to the two
+		// routes whose decoders quote request data in untyped errors (profile parameters,
+		// Loki protobuf label strings)
+		phraseCase := uni(rt, "phrase-case", 10) == 9
+		if phraseCase {
+			switch uni(rt, "phrase-route", 6) {
+			case 0, 1:
+				rd = *routeByName("ingest")
+			case 2:
+				rd = *routeByName("loki-push")
+			}
+		}
 		c.Route = rd.name
 
 		// body family: the route's own most of the time
@@ -741,7 +758,10 @@ func genReq(thorough bool) func(rt *rapid.T) reqCase {
 		if len(rd.families) > 1 && uni(rt, "second-family", 3) == 0 {
 			family = rd.families[1]
 		}
-		foreign := uni(rt, "foreign-family", 20) == 0
+		if phraseCase && rd.name == "loki-push" && rapid.Bool().Draw(rt, "phrase-loki-proto") {
+			family = "loki-proto"
+		}
+		foreign := !phraseCase && uni(rt, "foreign-family", 20) == 0
 		if foreign {
 			family = pick(rt, "family", allFamilies)
 			c.Muts = append(c.Muts, "foreign-body")
@@ -778,7 +798,13 @@ func genReq(thorough bool) func(rt *rapid.T) reqCase {
 		}
 
 		// damage
+		phrase := ""
 		k := uni(rt, "damage", 20)
+		if phraseCase {
+			k, fill = 10, nil
+		} else if k == 10 {
+			k = 11
+		}
 		if fill != nil {
 			k = 0
 			c.Muts = append(c.Muts, "fill")
@@ -806,6 +832,12 @@ func genReq(thorough bool) func(rt *rapid.T) reqCase {
 				b.ct = "multipart/form-data; boundary=x"
 			}
 			c.Muts = append(c.Muts, "hostile-const-"+kind)
+		case k == 9: // a tiny body that announces a huge one
+			c.Muts = append(c.Muts, announce(rt, b)...)
+		case k == 10: // data that reads like an error text the status mapping looks for
+			var m []string
+			m, phrase = phrased(rt, rd, family, b)
+			c.Muts = append(c.Muts, m...)
 		case k == 8: // random bytes
 			b.inner = rapid.SliceOfN(rapid.Byte(), 0, 300).Draw(rt, "random-bytes")
 			if rapid.Bool().Draw(rt, "random-unwrapped") {
@@ -834,12 +866,12 @@ func genReq(thorough bool) func(rt *rapid.T) reqCase {
 			b.inner, b.wrap = cur, b.wrap[layer:]
 		}
 		wire := b.wire()
-		if len(b.wrap) > 0 && b.wrap[len(b.wrap)-1] == "snappy-block" && uni(rt, "snappy-length-lie", 8) == 7 {
+		if phrase == "" && len(b.wrap) > 0 && b.wrap[len(b.wrap)-1] == "snappy-block" && uni(rt, "snappy-length-lie", 8) == 7 {
 			// the block starts with the uvarint of the decoded length (middleware.go:137 refuses
 			// more than 10 MiB before decoding): claim another one
 			_, hdr := binary.Uvarint(wire)
 			if hdr > 0 {
-				claim := pick(rt, "snappy-claim", []uint64{0, 1, 10 << 20, 10<<20 + 1, 1 << 30, 1<<32 - 1, 1 << 40})
+				claim := pick(rt, "snappy-claim", []uint64{0, 1, 10 << 20, 10<<20 + 1, 64 << 20, 256 << 20, 1 << 30, 1<<32 - 1, 1 << 40})
 				wire = append(binary.AppendUvarint(nil, claim), wire[hdr:]...)
 				c.Muts = append(c.Muts, "snappy-length-lie")
 			}
@@ -848,6 +880,9 @@ func genReq(thorough bool) func(rt *rapid.T) reqCase {
 		// query parameters
 		q := b.query
 		for _, p := range rd.params {
+			if phrase != "" {
+				break // the parameters carry the phrase (or are valid on purpose)
+			}
 			switch uni(rt, "param-"+p+"-mode", 10) {
 			case 0, 1, 2: // hostile value
 				q.Set(p, paramValue(rt, p))
@@ -877,7 +912,11 @@ func genReq(thorough bool) func(rt *rapid.T) reqCase {
 		if len(q) > 0 {
 			target += "?" + q.Encode()
 		}
-		switch uni(rt, "raw-query", 40) {
+		rawq := uni(rt, "raw-query", 40)
+		if phrase != "" {
+			rawq = 39
+		}
+		switch rawq {
 		case 0: // a query string no client library would produce
 			target = path + "?" + strings.Map(func(r rune) rune {
 				if r <= ' ' || r == 0x7f || r == '#' {
@@ -923,8 +962,8 @@ func genReq(thorough bool) func(rt *rapid.T) reqCase {
 				ce = headerSafe(gen.HostileStr(rt, "ce-hostile", gen.StrOpt{Max: 20}))
 			}
 		}
-		if fill != nil {
-			ce = "" // the filled body is assembled when it is sent
+		if fill != nil || phrase != "" {
+			ce = "" // the body is assembled when it is sent
 		}
 		if ce != "" {
 			wire, c.Enc = encodeFor(rt, ce, wire)
@@ -953,6 +992,10 @@ func genReq(thorough bool) func(rt *rapid.T) reqCase {
 		c.Body = wire
 		if fill != nil {
 			c.Body, c.Fill = head, fill
+		}
+		if phrase != "" {
+			// kept unwrapped, so that the twin can be derived from the case
+			c.Phrase, c.Body, c.Fill = phrase, b.inner, &fillSpec{Wrap: b.wrap}
 		}
 
 		// probe: a well-formed push of another protocol; most of the time one that shares
@@ -1071,4 +1114,151 @@ func fillFor(rt *rapid.T, family string, b *body, thorough bool) ([]byte, *fillS
 	f.Unit, f.Tail = unit, tail
 	f.N = target/len(unit) + 1
 	return head, f
+}
+
+// ---- announced sizes ------------------------------------------------------------------------
+
+var announcedSizes = []uint64{10 << 20, 10<<20 + 1, 64 << 20, 256 << 20, 1 << 30, 2 << 30, 1<<32 - 1}
+
+// announce replaces the body by a few bytes that announce a huge one: a snappy block
+// preamble (the uvarint of the decoded length), a protobuf length-delimited field or packed
+// repeated field whose length prefix points far behind the end, or a small gzip stream of
+// zeros. Nothing of the announced size is ever sent.
+func announce(rt *rapid.T, b *body) []string {
+	size := pick(rt, "announced-size", announcedSizes)
+	payload := rapid.SliceOfN(rapid.Byte(), 0, 12).Draw(rt, "announce-payload")
+	snappyFamily := len(b.wrap) > 0 && b.wrap[len(b.wrap)-1] == "snappy-block"
+	kind := uni(rt, "announce-kind", 4)
+	if kind == 0 && !snappyFamily && uni(rt, "announce-snappy-anyway", 3) > 0 {
+		kind = 1
+	}
+	switch kind {
+	case 0: // snappy preamble, on the wire as it is
+		lit := payload
+		if rapid.Bool().Draw(rt, "announce-valid-literal") {
+			// a well-formed literal element of len(payload) bytes after the lying preamble
+			lit = append([]byte{byte(len(payload)-1) << 2}, payload...)
+			if len(payload) == 0 {
+				lit = nil
+			}
+		}
+		b.inner, b.wrap = append(binary.AppendUvarint(nil, size), lit...), nil
+		return []string{"announce-snappy-preamble"}
+	case 1: // protobuf field with a length prefix far beyond the body, possibly nested
+		msg := append(protowire.AppendVarint(protowire.AppendTag(nil, protowire.Number(1+uni(rt, "announce-field", 5)), protowire.BytesType), size), payload...)
+		for d := uni(rt, "announce-depth", 3); d > 0; d-- {
+			msg = protowire.AppendBytes(protowire.AppendTag(nil, protowire.Number(1+uni(rt, "announce-outer", 2)), protowire.BytesType), msg)
+		}
+		b.inner = msg
+		if len(b.wrap) > 0 && b.wrap[0] == "gzip" && rapid.Bool().Draw(rt, "announce-raw") {
+			b.wrap = b.wrap[1:]
+		}
+		return []string{"announce-proto-length"}
+	case 2: // gzip stream of zeros (at most 3 MiB, so that the stream stays small)
+		n := pick(rt, "announce-zeros", []int{1 << 20, 2 << 20, 3 << 20})
+		b.inner, b.wrap = gz(make([]byte, n)), nil
+		if len(b.wrap) == 0 && b.family == "pprof-multipart" {
+			b.inner, b.wrap = make([]byte, n), []string{"gzip", "multipart"}
+		}
+		return []string{"announce-gzip-zeros"}
+	default: // valid body followed by a huge announced tail
+		tail := protowire.AppendVarint(protowire.AppendTag(nil, 1, protowire.BytesType), size)
+		b.inner = append(append([]byte(nil), b.inner...), tail...)
+		return []string{"announce-tail"}
+	}
+}
+
+// ---- error phrases --------------------------------------------------------------------------
+
+// errorPhrases: what the status mapping of the writer looks for in error texts
+// (controller/builder.go ErrorHandler and doPush, controller/shared.go watchErr,
+// unmarshal/datadogMetricsJsonUnmarshal.go WrapError, plugin/utils.go) and the texts of
+// the usual transport errors.
+var errorPhrases = []string{"connection reset by peer", "connection reset by peer", "connection reset by peer", "connection reset by peer", "connection reset by peer",
+	"connection reset by peer", "json parse error", "json parse error", "json error", "json error", "dial tcp: lookup", "i/o timeout",
+	"unexpected packet [21] from server", "broken pipe", "EOF", "unexpected EOF", "timeout", "context canceled", "context deadline exceeded",
+	"use of closed network connection", "internal server error", "service stopped", "panic: runtime error"}
+
+// twinOf alters the phrase minimally (same length, same character classes).
+func twinOf(phrase string) string {
+	if phrase == "" {
+		return ""
+	}
+	r := byte('x')
+	if phrase[0] == 'x' {
+		r = 'y'
+	}
+	if phrase[0] >= 'A' && phrase[0] <= 'Z' {
+		r = 'X'
+	}
+	return string(r) + phrase[1:]
+}
+
+// phrased puts an error phrase into data the decoders quote in their error messages: the
+// profile parameters, Loki label strings and timestamps, or any string of the body.
+func phrased(rt *rapid.T, rd routeDef, family string, b *body) ([]string, string) {
+	ph := pick(rt, "phrase", errorPhrases)
+	shape := func(label string) string { // the phrase alone or inside something larger
+		switch uni(rt, label, 4) {
+		case 0:
+			return ph
+		case 1:
+			return "a " + ph
+		case 2:
+			return ph + ": 1"
+		}
+		return "{" + ph + "}"
+	}
+	switch {
+	case rd.name == "ingest":
+		switch uni(rt, "phrase-param", 4) {
+		case 0:
+			b.query.Set("from", shape("phrase-from"))
+			return []string{"phrase-from"}, ph
+		case 1:
+			b.query.Set("until", shape("phrase-until"))
+			return []string{"phrase-until"}, ph
+		case 2:
+			b.query.Set("name", "app{"+ph+"}")
+			return []string{"phrase-name"}, ph
+		}
+		b.query.Set("name", pick(rt, "phrase-name", []string{ph, ph + "{", "app{" + ph + "=", "{" + ph}))
+		return []string{"phrase-name"}, ph
+	case family == "loki-proto":
+		lbl := pick(rt, "phrase-labels", []string{ph, "{" + ph, `{a="b"} ` + ph, `{a="b",` + ph + `}`, `{` + ph + `="b"}`, `{a="` + ph + `"}`, `{a=` + ph + `}`})
+		entry := protowire.AppendString(protowire.AppendTag(protowire.AppendBytes(protowire.AppendTag(nil, 1, protowire.BytesType),
+			protowire.AppendVarint(protowire.AppendTag(nil, 1, protowire.VarintType), 1705320000)), 2, protowire.BytesType), "line "+ph)
+		stream := protowire.AppendBytes(protowire.AppendTag(protowire.AppendString(protowire.AppendTag(nil, 1, protowire.BytesType), lbl), 2, protowire.BytesType), entry)
+		b.inner = protowire.AppendBytes(protowire.AppendTag(nil, 1, protowire.BytesType), stream)
+		return []string{"phrase-loki-labels"}, ph
+	case family == "loki-json":
+		q := func(s string) string { return gen.JSONString(s, 0) }
+		b.inner = []byte(pick(rt, "phrase-loki-json", []string{
+			`{"streams":[{"labels":` + q(shape("phrase-l1")) + `,"entries":[{"ts":"1705320000000000000","line":"x"}]}]}`,
+			`{"streams":[{"labels":` + q(`{a="b"} `+ph) + `,"entries":[{"ts":"1705320000000000000","line":"x"}]}]}`,
+			`{"streams":[{"labels":"{a=\"b\"}","entries":[{"ts":` + q(shape("phrase-l2")) + `,"line":"x"}]}]}`,
+			`{"streams":[{"stream":{"a":"b"},"values":[[` + q(ph) + `,"x"]]}]}`,
+			`{"streams":[{"stream":{"a":` + q(ph) + `},"values":[["1705320000000000000",` + q(ph) + `,"` + ph + `"]]}]}`,
+			`{"streams":[{"stream":{` + q(ph) + `:1},"values":[]}]}`,
+		}))
+		return []string{"phrase-loki-json"}, ph
+	}
+	if len(rd.params) > 0 && rapid.Bool().Draw(rt, "phrase-in-param") {
+		p := rd.params[uni(rt, "phrase-which-param", len(rd.params))]
+		b.query.Set(p, shape("phrase-"+p))
+		return []string{"phrase-" + p}, ph
+	}
+	// any string of the body; binary bodies: a damaged tail that quotes the phrase
+	if toks := jsonTokens(b.inner); len(toks) > 0 && family != "prom-rw" && family != "otlp-logs" && family != "otlp-traces" && !strings.HasPrefix(family, "pprof") {
+		tk := toks[uni(rt, "phrase-token", len(toks))]
+		rep := gen.JSONString(shape("phrase-tok"), 0)
+		if family == "influx" {
+			rep = strings.ReplaceAll(ph, " ", `\ `)
+		}
+		b.inner = append(append(append([]byte(nil), b.inner[:tk[0]]...), rep...), b.inner[tk[1]:]...)
+		return []string{"phrase-body-token"}, ph
+	}
+	// (an unknown field: the phrase must sit in data, not be parsed as structure)
+	b.inner = append(append([]byte(nil), b.inner...), protowire.AppendString(protowire.AppendTag(nil, 99, protowire.BytesType), ph)...)
+	return []string{"phrase-body-tail"}, ph
 }
